@@ -241,6 +241,13 @@ func worldAuthz(w *World) {
 			if r.Intn(4) == 0 {
 				f["privilege_key"] = authKey(token, ts+1) // right token, digest of another timestamp
 			}
+			if r.Intn(3) == 0 {
+				// a refused login that names the honest session's run id must not disturb that session
+				f["run_id"] = honest.RunID
+				refusedLogin("bad-key-with-live-run-id", f, newAdv(tok))
+				checkHonest("after-refused-login-with-its-run-id")
+				continue
+			}
 			refusedLogin("bad-key", f, newAdv(tok))
 		case 1: // the peer tries to exempt itself
 			f := M{"version": "0.62.0", "user": "adv", "timestamp": ts, "privilege_key": authKey("wrong", ts),
